@@ -104,14 +104,27 @@ Payloads(p) ==
 WriteTargets == LeafDP \cup LeafListDP \cup JsonTargets
 DelTargets   == LeafDP \cup LeafListDP \cup ContDP \cup EntryDP \cup ListDP
 
+\* "adel" is the implicit delete of an atomic Notification: UnmarshalNotifications applies
+\* Notification{atomic, prefix p, updates} as SetRequest{prefix p, delete [<empty path>],
+\* update updates}, i.e. everything at the prefix is replaced by the updates.
+AtomicPrefixes == ContDP \cup EntryDP \cup ListDP \cup {<< >>}
+
 Ops == UNION {{[k |-> k, p |-> p, pay |-> pay] : k \in {"rep", "upd"}, pay \in Payloads(p)} : p \in WriteTargets}
        \cup {[k |-> "del", p |-> p, pay |-> [t |-> "none"]] : p \in DelTargets}
+       \cup {[k |-> "adel", p |-> p, pay |-> [t |-> "none"]] : p \in AtomicPrefixes}
 
-Rank(k) == CASE k = "del" -> 1 [] k = "rep" -> 2 [] k = "upd" -> 3
+Rank(k) == CASE k = "adel" -> 0 [] k = "del" -> 1 [] k = "rep" -> 2 [] k = "upd" -> 3
 
-\* a request: deletes, then replaces, then updates, each in message order
-Requests == {r \in UNION {[1..n -> Ops] : n \in 1..MaxOps} :
-               \A i \in 1..(Len(r) - 1) : Rank(r[i].k) <= Rank(r[i + 1].k)}
+\* a request: deletes, then replaces, then updates, each in message order; or an atomic
+\* notification: its implicit delete followed by leaf / leaf-list updates below the prefix
+WellShaped(r) ==
+  /\ \A i \in 1..(Len(r) - 1) : Rank(r[i].k) <= Rank(r[i + 1].k)
+  /\ \A i \in 2..Len(r) : r[i].k # "adel"
+  /\ (Len(r) > 0 /\ r[1].k = "adel") =>
+        /\ \A i \in 2..Len(r) : r[i].k = "upd" /\ r[i].pay.t \in {"leaf", "ll"} /\ Below(r[1].p, r[i].p)
+        /\ (r[1].p \in ListDP => Len(r) = 1)     \* no path is relative to a key-less list element
+
+Requests == {r \in UNION {[1..n -> Ops] : n \in 1..MaxOps} : WellShaped(r)}
 
 ApplyDel(t, p) == DeleteAt(t, p)
 
@@ -122,7 +135,7 @@ ApplyUpd(t, p, pay) ==
 
 ApplyRep(t, p, pay) == ApplyUpd(ApplyDel(t, p), p, pay)
 
-ApplyOp(t, o) == CASE o.k = "del" -> ApplyDel(t, o.p)
+ApplyOp(t, o) == CASE o.k \in {"del", "adel"} -> ApplyDel(t, o.p)
                    [] o.k = "rep" -> ApplyRep(t, o.p, o.pay)
                    [] o.k = "upd" -> ApplyUpd(t, o.p, o.pay)
 
@@ -154,7 +167,7 @@ RECURSIVE RefApply(_, _)
 RefApply(f, r) ==
   IF r = << >> THEN f
   ELSE LET o == Head(r)
-           g == CASE o.k = "del" -> RefDel(f, o.p)
+           g == CASE o.k \in {"del", "adel"} -> RefDel(f, o.p)
                   [] o.k = "rep" -> RefRep(f, o.p, o.pay)
                   [] o.k = "upd" -> RefUpd(f, o.p, o.pay)
        IN RefApply(g, Tail(r))
@@ -191,6 +204,27 @@ Step ==
 Next == (\E r \in Requests : Begin(r)) \/ Step
 
 Spec == Init /\ [][Next]_vars
+
+\* The same machine with the request assembled operation by operation: used with
+\* `tlc -simulate` to draw long multi-operation requests and histories of requests (the set
+\* Requests is too large to enumerate once MaxOps > 1).
+\* (deleting a key leaf leaves a schema-invalid entry behind; what later operations of the same
+\* request do with it is unspecified, as under CONSTRAINT KeyLeavesSet in the exhaustive runs)
+AddOp(o) ==
+  /\ pc = 0 /\ Len(req) < MaxOps
+  /\ ~(o.k = "del" /\ o.p \in LeafDP /\ IsKeyLeaf(o.p))
+  /\ WellShaped(Append(req, o))
+  /\ req' = Append(req, o)
+  /\ UNCHANGED <<tree, pc, tree0, act>>
+
+Start ==
+  /\ pc = 0 /\ req # NoReq
+  /\ pc' = 1 /\ tree0' = tree
+  /\ UNCHANGED <<tree, req, act>>
+
+NextB == (\E o \in Ops : AddOp(o)) \/ Start \/ Step
+
+SpecB == Init /\ [][NextB]_vars
 
 View == <<tree, req, pc, tree0>>
 
